@@ -73,6 +73,22 @@ def TimelockInfo.accepts : Option TimelockInfo → Bool
 no satisfaction at all is `Ok` -/
 def checkTimelocks (c : CPolicy) : Bool := TimelockInfo.accepts (timelockInfo c)
 
+/-- `Policy::check_duplicate_keys`: `true` = `Ok(())`; `keys()` are the key leaves in pre-order,
+compared with the number of distinct ones -/
+def checkDuplicateKeys (c : CPolicy) : Bool :=
+  let pks := (atomsOfC c).filter Atom.isKey
+  !(pks.length > pks.eraseDups.length)
+
+/-- outcome of `Policy::is_valid` -/
+inductive ValidRes | ok | timelock | dupKeys
+  deriving DecidableEq, Repr, Inhabited
+
+/-- `Policy::is_valid`: `check_timelocks()?; check_duplicate_keys()?` -/
+def isValid (c : CPolicy) : ValidRes :=
+  if !checkTimelocks c then .timelock
+  else if !checkDuplicateKeys c then .dupKeys
+  else .ok
+
 /-- outcome of `Liftable::lift` -/
 inductive LiftRes
   | ok (p : Policy)
@@ -125,8 +141,8 @@ mutual
 /-- `Policy::is_safe_nonmalleable` → `(signed, non-malleable)` -/
 def isSafeNonmalleable : CPolicy → Bool × Bool
   | .unsat => (true, true)
-  | .trivial => (true, true)
   | .atom (.key _) => (true, true)
+  | .trivial => (false, true)         -- `Trivial | hashes | After | Older => (false, true)`
   | .atom _ => (false, true)
   | .and subs =>
     let rs := isSafeNonmalleableList subs
